@@ -74,17 +74,13 @@ func H_C20_x2j() {
 		got, err := XmlValuesForTag(x, key)
 		want, _ := core.ValuesForKey(key)
 		vAssert(err == nil && len(got) == len(want), "x2j: XmlValuesForTag returns as many values as Map.ValuesForKey")
-		for i := range got {
-			vAssert(vDeepEq(got[i], want[i]), "x2j: XmlValuesForTag equals Map.ValuesForKey")
-		}
+		vAssert(vSameMultisetDeep(got, want), "x2j: XmlValuesForTag equals Map.ValuesForKey")
 	case 5:
 		p := "r." + key
 		got, err := XmlValuesForPath(x, p)
 		want, _ := core.ValuesForPath(p)
 		vAssert(err == nil && len(got) == len(want), "x2j: XmlValuesForPath returns as many values as Map.ValuesForPath")
-		for i := range got {
-			vAssert(vDeepEq(got[i], want[i]), "x2j: XmlValuesForPath equals Map.ValuesForPath")
-		}
+		vAssert(vSameMultisetDeep(got, want), "x2j: XmlValuesForPath equals Map.ValuesForPath")
 	case 6:
 		up := []string{"r.", "nope.", "r.c."}[vChoose(3)] + key
 		got, err := XmlUpdateValsForPath(x, key+":N", up)
